@@ -355,6 +355,115 @@ func init() {
 			return vl{oh.Version, oh.Flags, oh.ReferenceCount, vBytes([]byte(oh.Name)), msgs}, nil
 		},
 	}
+
+	// ---------------------------------------------------------------- link message
+	c11Codecs["link"] = c11Codec{
+		enc: func(val json.RawMessage, sb *core.Superblock) ([]byte, error) {
+			var v struct {
+				Version uint8  `json:"version"`
+				Flags   uint8  `json:"flags"`
+				Type    uint8  `json:"type"`
+				COrder  uint64 `json:"corder"`
+				CharSet uint8  `json:"charset"`
+				Name    string `json:"name"`
+				Value   string `json:"value"`
+			}
+			if err := json.Unmarshal(val, &v); err != nil {
+				return nil, err
+			}
+			name, err := hex.DecodeString(v.Name)
+			if err != nil {
+				return nil, err
+			}
+			value, err := hex.DecodeString(v.Value)
+			if err != nil {
+				return nil, err
+			}
+			return core.EncodeLinkMessage(&core.LinkMessage{Version: v.Version, Flags: v.Flags, Type: core.LinkType(v.Type),
+				CreationOrder: v.COrder, CharSet: v.CharSet, Name: string(name), LinkValue: value}, sb)
+		},
+		dec: func(data []byte, sb *core.Superblock) (interface{}, error) {
+			lm, err := core.ParseLinkMessage(data, sb)
+			if err != nil {
+				return nil, err
+			}
+			return vl{lm.Version, lm.Flags, uint8(lm.Type), lm.CreationOrder, lm.CharSet, vBytes([]byte(lm.Name)), vBytes(lm.LinkValue)}, nil
+		},
+	}
+
+	// ---------------------------------------------------------------- link info message
+	c11Codecs["linkinfo"] = c11Codec{
+		enc: func(val json.RawMessage, sb *core.Superblock) ([]byte, error) {
+			var v struct {
+				Version uint8  `json:"version"`
+				Flags   uint8  `json:"flags"`
+				MaxCO   uint64 `json:"maxcorder"`
+				Heap    uint64 `json:"heap"`
+				BTName  uint64 `json:"btname"`
+				BTOrder uint64 `json:"btorder"`
+			}
+			if err := json.Unmarshal(val, &v); err != nil {
+				return nil, err
+			}
+			return core.EncodeLinkInfoMessage(&core.LinkInfoMessage{Version: v.Version, Flags: v.Flags, MaxCreationOrder: int64(v.MaxCO),
+				FractalHeapAddress: v.Heap, NameBTreeAddress: v.BTName, CreationOrderBTreeAddress: v.BTOrder}, sb)
+		},
+		dec: func(data []byte, sb *core.Superblock) (interface{}, error) {
+			m, err := core.ParseLinkInfoMessage(data, sb)
+			if err != nil {
+				return nil, err
+			}
+			return vl{m.Version, m.Flags, uint64(m.MaxCreationOrder), m.FractalHeapAddress, m.NameBTreeAddress, m.CreationOrderBTreeAddress}, nil
+		},
+	}
+
+	// ---------------------------------------------------------------- attribute info message
+	c11Codecs["attrinfo"] = c11Codec{
+		enc: func(val json.RawMessage, sb *core.Superblock) ([]byte, error) {
+			var v struct {
+				Version uint8  `json:"version"`
+				Flags   uint8  `json:"flags"`
+				Heap    uint64 `json:"heap"`
+				BTName  uint64 `json:"btname"`
+				MaxCIdx uint64 `json:"maxcidx"`
+				BTOrder uint64 `json:"btorder"`
+			}
+			if err := json.Unmarshal(val, &v); err != nil {
+				return nil, err
+			}
+			return core.EncodeAttributeInfoMessage(&core.AttributeInfoMessage{Version: v.Version, Flags: v.Flags, FractalHeapAddr: v.Heap,
+				BTreeNameIndexAddr: v.BTName, MaxCreationIndex: v.MaxCIdx, BTreeOrderIndexAddr: v.BTOrder}, sb)
+		},
+		dec: func(data []byte, sb *core.Superblock) (interface{}, error) {
+			m, err := core.ParseAttributeInfoMessage(data, sb)
+			if err != nil {
+				return nil, err
+			}
+			return vl{m.Version, m.Flags, m.FractalHeapAddr, m.BTreeNameIndexAddr, m.MaxCreationIndex, m.BTreeOrderIndexAddr}, nil
+		},
+	}
+
+	// ---------------------------------------------------------------- symbol table message
+	// The library has no decoder function for this message: group.go reads it inline (lines 274-281,
+	// 341-343, 521-523).  The decoder below is a copy of those lines, not the library code itself.
+	c11Codecs["symtab"] = c11Codec{
+		enc: func(val json.RawMessage, sb *core.Superblock) ([]byte, error) {
+			var v struct {
+				BTree uint64 `json:"btree"`
+				Heap  uint64 `json:"heap"`
+			}
+			if err := json.Unmarshal(val, &v); err != nil {
+				return nil, err
+			}
+			return core.EncodeSymbolTableMessage(v.BTree, v.Heap, int(sb.OffsetSize), int(sb.LengthSize)), nil
+		},
+		dec: func(data []byte, sb *core.Superblock) (interface{}, error) {
+			if len(data) >= 16 {
+				return vl{sb.Endianness.Uint64(data[0:8]), sb.Endianness.Uint64(data[8:16])}, nil
+			}
+			return nil, fmt.Errorf("symbol table message shorter than 16 bytes")
+		},
+	}
 }
 
 // c11Mem is an in-memory io.WriterAt (zero-extends like a file).
